@@ -357,3 +357,47 @@ Example loops_example :
   run_parse_ctx false kinds tbl = PErr 7%N /\
   run_recover kinds tbl = ROk [100] [(3, 7%N)].
 Proof. vm_compute. repeat split. Qed.
+
+(* ---- the batch loop on ONE reused parser ---- *)
+Section BatchStP.
+  Variables Q T St : Type.
+  Variable one_st : St -> Q -> pres T * St.
+  Variable s0 : St.
+  Variable good : St -> Prop.                        (* the states in which a call behaves like a call on a fresh parser *)
+  Hypothesis good_keeps : forall s q, good s -> good (snd (one_st s q)).
+  Hypothesis good_same : forall s q, good s -> fst (one_st s q) = fst (one_st s0 q).
+
+  (* if every call leaves the parser in a state that is as good as new, the batch on the reused parser is the batch
+     of individual calls on fresh parsers *)
+  Theorem multi_st_refines : forall qs s i acc, good s ->
+    multi_st Q T St one_st s i qs acc = multi Q T (fun q => fst (one_st s0 q)) i qs acc.
+  Proof.
+    induction qs as [|q r IH]; intros s i acc Hg; cbn [multi_st multi]; [reflexivity|].
+    pose proof (good_same s q Hg) as Hs. pose proof (good_keeps s q Hg) as Hk.
+    destruct (one_st s q) as [res s'] eqn:E. cbn [fst snd] in Hs, Hk. rewrite <- Hs.
+    destruct res as [ts|c|]; [apply IH; exact Hk|reflexivity|reflexivity].
+  Qed.
+End BatchStP.
+
+(* the depth-counter instance: balanced bookkeeping (nothing left behind) keeps the counter at 0 *)
+Lemma depth_batch_balanced : forall limit qs i acc,
+  Forall (fun q => snd q = 0) qs ->
+  multi_st (nat * nat) nat nat (depth_one limit) 0 i qs acc
+  = multi (nat * nat) nat (fun q => fst (depth_one limit 0 q)) i qs acc.
+Proof.
+  intros limit qs. induction qs as [|q r IH]; intros i acc HF; cbn [multi_st multi]; [reflexivity|].
+  inversion HF as [|q' r' Hq Hr]; subst.
+  unfold depth_one at 1 3. cbn [fst snd]. rewrite Hq, Nat.add_0_r.
+  destruct (0 + fst q <=? limit); cbn [fst]; [apply IH; exact Hr|reflexivity].
+Qed.
+
+(* ... and one level left behind per member makes a batch of individually accepted queries fail: with limit 100, 100
+   queries that need one level each and leak one level each are all accepted alone, the batch fails at index 100 *)
+Lemma depth_batch_leak_refuted :
+  Forall (fun q => fst (depth_one 100 0 q) = POk [fst q]) (repeat (1, 1) 101) /\
+  multi_st (nat * nat) nat nat (depth_one 100) 0 0 (repeat (1, 1) 101) [] = MErr 100 E_DEPTH.
+Proof.
+  split.
+  - apply Forall_forall. intros q Hq. apply repeat_spec in Hq. subst q. reflexivity.
+  - vm_compute. reflexivity.
+Qed.
